@@ -14,7 +14,11 @@ Bernoulli encoders the model's [u < p] is then compared directly), and runs part
 Direct oracle (independent of the Coq model): shape / number of slices / dtype, silence at zero intensity,
 minimum gap and at-most-one-spike-per-refractory-window for the refractory Poisson encoder,
 reproducibility from the same generator state, constructor validation; configuration reached through property
-setters (random assignment sequences to dt, steps, frequency, refrac, compensated, generator of the three classes,
+setters (random assignment sequences to dt, steps, frequency, refrac, compensated, generator - incl. generator = None,
+None -> generator, generator -> other generator - of the three classes, optional constructor arguments omitted half the
+time with the documented defaults hard-coded here; generator semantics: with None the output is a function of the global
+RNG state (torch.manual_seed) and advancing earlier private generators changes nothing, with a private generator the
+global RNG is neither read nor advanced,
 every getter compared after every assignment with the configuration a user expects, then encode); every online encoder is consumed both
 slice by slice and gathered-then-stacked (same seed) and the gathered slices must not share storage.
 """
@@ -44,7 +48,10 @@ LEVEL_NOTE = ("Trusted: Coq kernel; the hand-written model coq/C19/Encoders.v (v
               "rounding (refrac/dt just below an integer), statistical properties (rates), generator-state reproducibility "
               "(oracle only), the tie of the setter state machine (Encoders.assign, theorems explicit_refrac_sticky, "
               "assign_accepted_spec, assign_tracks_dt ...) to the property setters is correspondence + oracle "
-              "(oracle only), float32 (adversarial boundary configurations run in float32 are judged by the oracle only), that "
+              "(oracle only), float32 (adversarial boundary configurations run in float32 are judged by the oracle only, and only "
+              "those whose compensated scale evaluated in float32 as the code does is >= 0 are generated: a configuration "
+              "whose validity margin is below float32 resolution can get a negative scale from rounding and then breaks "
+              "the refractory gap - outside the modelled domain, not alarmed on), that "
               "online slices are distinct tensors (oracle only: both consumption modes + alias probe).")
 EXPLANATION = ("Every encoder is modelled as a function of the sampled values (exponential / Poisson / uniform draws are inputs), so "
                "'for all generator seeds' becomes 'for all draw lists' and is proved by induction / order arguments in Coq: shape "
@@ -201,6 +208,15 @@ def gen_case(rng: random.Random, stream: str):
             if online:
                 case["shape"] = [1]
                 case["x"] = [-0.0]
+        # optional arguments holding their DOCUMENTED default (refrac=None, compensate=True) are omitted half the time
+        if kind in ("hpe", "f_exp") and stream == "valid":
+            om = []
+            if case["refrac"] is None and rng.random() < 0.5:
+                om.append("refrac")
+            if case["comp"] is True and rng.random() < 0.5:
+                om.append("compensate")
+            if om:
+                case["omit"] = om
         # keep the float reading of refrac/dt and of nbins unambiguous (no rounding across an integer)
         if config_valid(case) and case["kind"] in ("hpe", "f_exp"):
             r = refrac_used(case) / case["dt"]
@@ -225,6 +241,7 @@ def expected_run(kind, ctor, assigns):
     (non-positive dt / steps, negative frequency / refrac, frequency * refrac >= 1000 while compensating)
     raises ValueError and changes nothing.  Returns (final configuration, [(rejected, getters)])."""
     st = {k: ctor[k] for k in CFG_KEYS}
+    st["gen"] = ctor.get("gen0", "ctor")     # None = the global RNG, a number = the private generator with that seed
 
     def refrac():
         return st["dt"] if st["refrac"] is None else st["refrac"]
@@ -232,7 +249,7 @@ def expected_run(kind, ctor, assigns):
     def getters():
         h = kind == "hpe"
         return [st["steps"], st["dt"], st["freq"], st["comp"] if h else None, refrac() if h else None,
-                st["steps"] * st["dt"]]
+                st["steps"] * st["dt"], st["gen"]]
 
     trace = []
     for attr, v in assigns:
@@ -254,7 +271,7 @@ def expected_run(kind, ctor, assigns):
             rej = bool(v) and not st["freq"] * refrac() < 1000
             key = "comp"
         else:
-            key = None
+            key = "gen"                      # generator: stores whatever is assigned, None included
         if not rej and key is not None:
             st[key] = v
         trace.append((rej, getters()))
@@ -264,11 +281,14 @@ def expected_run(kind, ctor, assigns):
 def finalize(case):
     """top-level configuration fields of a setter case := the expected final configuration"""
     st, _ = expected_run(case["kind"], case["ctor"], case["assign"])
+    case["gen_final"] = st.pop("gen")
     case.update(st)
     return case
 
 
 def eff_seed(c):
+    if "gen0" in c:
+        return c["gseed"] if c["gen_final"] is None else c["gen_final"]
     seed = c["seed"]
     for attr, v in c.get("assign", []):
         if attr == "generator":
@@ -300,14 +320,25 @@ def gen_setter_case(rng):
             ctor["refrac"] = None
             if ctor["comp"] and ctor["dt"] * ctor["freq"] > 990.0:
                 ctor["comp"] = False
+        # the generator: None (global RNG; documented default) or a private one; optional constructor arguments
+        # that hold their DOCUMENTED default (refrac=None, compensate=True, generator=None) are omitted half the time
+        ctor["gen0"] = None if rng.random() < 0.4 else rng.randrange(1 << 30)
+        omit = []
+        if ctor["gen0"] is None and rng.random() < 0.5:
+            omit.append("generator")
+        if kind == "hpe" and ctor["refrac"] is None and rng.random() < 0.5:
+            omit.append("refrac")
+        if kind == "hpe" and ctor["comp"] is True and rng.random() < 0.5:
+            omit.append("compensate")
         st = dict(ctor)
         assigns = []
 
         def cur_refrac():
             return st["dt"] if st["refrac"] is None else st["refrac"]
 
-        attrs = {"hpe": ["dt", "dt", "steps", "frequency", "refrac", "refrac", "refrac", "compensated", "generator"],
-                 "hpa": ["dt", "steps", "frequency", "generator"], "pie": ["dt", "steps", "frequency", "generator"]}[kind]
+        attrs = {"hpe": ["dt", "dt", "steps", "frequency", "refrac", "refrac", "refrac", "compensated", "generator", "generator"],
+                 "hpa": ["dt", "steps", "frequency", "generator", "generator"],
+                 "pie": ["dt", "steps", "frequency", "generator", "generator"]}[kind]
         for _i in range(rng.randint(1, 6)):
             a = rng.choice(attrs)
             bad = rng.random() < 0.12
@@ -337,7 +368,7 @@ def gen_setter_case(rng):
             elif a == "compensated":
                 v = rng.random() < 0.5
             else:
-                v = rng.randrange(1 << 30)
+                v = None if rng.random() < 0.4 else rng.randrange(1 << 30)
             # keep every accept / reject decision away from the 1000 boundary
             probe = None
             if a == "frequency" and kind == "hpe":
@@ -350,9 +381,11 @@ def gen_setter_case(rng):
                 continue
             assigns.append([a, v])
             st, _ = expected_run(kind, ctor, assigns)
+            st.pop("gen")
         if not assigns:
             continue
-        case = dict(base, ctor=ctor, assign=assigns, stream="setters")
+        case = dict(base, ctor=ctor, assign=assigns, stream="setters", gen0=ctor["gen0"], omit=omit,
+                    gseed=rng.randrange(1 << 30))
         finalize(case)
         if not (config_valid(case) and in_domain(case) and unambiguous(case)):
             continue
@@ -366,7 +399,38 @@ STUBBED = ["Tensor.exponential_", "torch.poisson", "torch.bernoulli", "Tensor.be
 BELOW1 = math.nextafter(1.0, 0.0)
 
 
+def f32(x: float) -> float:
+    """round to binary32 (for + - * / a binary64 operation followed by this rounding is the float32 operation)"""
+    import struct
+    return struct.unpack("f", struct.pack("f", x))[0]
+
+
+def scale_f32(case, j):
+    """compensated scale of element j evaluated in float32 exactly as the code does:
+    (1 / inputs) * (1000.0 / step_time) - refrac / step_time, inputs = frequency * x (class) or x (functional)"""
+    x = f32(case["x"][j])
+    inp = f32(f32(case["freq"]) * x) if case["kind"] == "hpe" else x
+    if inp == 0:
+        return math.inf
+    res = f32(f32(1.0 / inp) * f32(1000.0 / case["dt"]))
+    if case["comp"]:
+        res = f32(res - f32(refrac_used(case) / case["dt"]))
+    return res
+
+
 def gen_adversarial_case(rng, i):
+    for _ in range(200):
+        c = gen_adversarial_case1(rng, i)
+        # float32 is not modelled: a configuration that is valid only in exact arithmetic (validity margin below
+        # float32 resolution) may get a NEGATIVE compensated scale from rounding; such cases are not generated -
+        # the float32 boundary cases are those whose scale, evaluated in float32 as the code does, is >= 0
+        if c.get("dtype") == "f32" and any(scale_f32(c, j) < 0 for j in range(len(c["x"]))):
+            continue
+        return c
+    raise RuntimeError("adversarial case generation failed")
+
+
+def gen_adversarial_case1(rng, i):
     """the random schedule is chosen by the generator (stubbed sampler, see tools/impl/c19_impl.StubLayer) and the
     configuration sits on the boundaries: frequency * refrac at / next to the validity limit, intensities exactly 0
     and 1, probabilities exactly 0 / 1; uniform draws exactly 0, the largest float below 1, exactly p; exponential
@@ -531,6 +595,12 @@ def q_case(c, r):
         # the model constructs with the constructor's arguments, applies the assignments (as the setters are
         # written) and runs forward on the state it reached
         inner = q_case_plain(c, r, cfg="c")
+        if "gen0" in c:
+            def qg(v):
+                return "None" if v is None else f"(Some {F.coq_Z(v)})"
+            prog = F.coq_list([f"GGen FN {qg(v)}" if a == "generator" else f"GA FN ({q_assign(a, v)})"
+                               for a, v in c["assign"]])
+            return f"run_gseq {KIND_COQ[c['kind']]} {q_cfg(c['ctor'])} {qg(c['gen0'])} {prog} (fun c => {inner})"
         prog = F.coq_list([q_assign(a, v) for a, v in c["assign"] if a != "generator"])
         return f"run_seq {KIND_COQ[c['kind']]} {q_cfg(c['ctor'])} {prog} (fun c => {inner})"
     return q_case_plain(c, r)
@@ -608,15 +678,18 @@ def compare(c, r, m, bern_out):
         kind = c["kind"]
         if dec_estate(m[1], kind) != r["getters0"][:5]:
             return {"what": "getters after construction differ", "model": dec_estate(m[1], kind), "impl": r["getters0"][:5]}
-        it = [(a, t) for (a, t) in zip(c["assign"], r["setter_trace"]) if a[0] != "generator"]
+        withgen = "gen0" in c
+        it = [(a, t) for (a, t) in zip(c["assign"], r["setter_trace"]) if withgen or a[0] != "generator"]
         if len(it) != len(m[2]):
             return {"what": "number of assignments applied differs", "model": len(m[2]), "impl": len(it)}
         for i, ((a, t), ms) in enumerate(zip(it, m[2])):
             merr = ms[0][0] if ms[0] else None
-            if merr != t[0] or dec_estate(ms[1], kind) != t[1][:5]:
+            mgen = (ms[2][0] if ms[2] else None) if withgen else None
+            if merr != t[0] or dec_estate(ms[1], kind) != t[1][:5] or (withgen and mgen != t[1][6]):
                 return {"what": "setter behaves differently from the model", "assignment": a, "index": i,
-                        "model": {"raised": merr, "getters": dec_estate(ms[1], kind)},
-                        "impl": {"raised": t[0], "getters": t[1][:5], "info": t[2]}}
+                        "model": {"raised": merr, "getters": dec_estate(ms[1], kind), "generator": mgen},
+                        "impl": {"raised": t[0], "getters": t[1][:5], "generator": t[1][6] if len(t[1]) > 6 else None,
+                                 "info": t[2]}}
         m = m[3]
     k = c["kind"]
     if c.get("stub"):
@@ -695,13 +768,19 @@ def oracle(c, r):
             ok = (err == 2) if rej else (err is None)
             if attr == "generator":
                 ok = ok and info is True
+            if "gen0" not in c:
+                got, eg = got[:6], eg[:6]
             if not ok or got != eg:
                 fail("setter_config",
                      {"what": "configuration after a property assignment is not the one assigned",
                       "constructor": c["ctor"], "assignments": c["assign"][:i + 1], "assignment_index": i,
-                      "expected": {"raises_ValueError": rej, "getters [steps, dt, frequency, compensated, refrac, duration]": eg},
+                      "expected": {"raises_ValueError": rej, "getters [steps, dt, frequency, compensated, refrac, duration, generator]": eg},
                       "got": {"raised": err, "getters": got, "info": info}})
                 return fails
+        if "gen0" in c and c["gen_final"] is not None and r.get("global_rng_consumed"):
+            fail("global_rng_consumed",
+                 {"what": "an encoder with a private generator advanced the global RNG", "generator": c["gen_final"]})
+            return fails
     if not config_valid(c):
         if not (r["status"] == "raised" and r["exc"] == 2):
             fail("invalid_config_accepted", {"expected": "ValueError", "got": r["status"], "msg": r["msg"]})
@@ -893,6 +972,9 @@ def run(ctx):
         "adversarial_cases_float32_oracle_only": sum(1 for c in cases if c.get("dtype") == "f32"),
         "stubbed_primitives": STUBBED,
         "primitives_drawn_from": dict(Counter(p for r in impl for p in (r.get("prims") or []))),
+        "cases_omitting_optional_arguments": dict(Counter(o for c in cases for o in c.get("omit", []))),
+        "generator_final_source": dict(Counter(("global" if c["gen_final"] is None else "private")
+                                               for c in cases if "gen0" in c)),
         "setter_assignments_checked": sum(len(c.get("assign", [])) for c in cases),
         "setter_assignment_kinds": dict(Counter(a[0] + ("=None" if a[1] is None else "") for c in cases
                                                 for a in c.get("assign", []))),
